@@ -247,10 +247,12 @@ def reference_swaps(g):
         out.append(("layout", dict(g, layout=[0])))
     if g["place"] == "top":
         out.append(("place", dict(g, place="func")))
-    sk_ref = "param" if g["sk"] != "param" else "call"
-    out.append(("sk", dict(g, sk=sk_ref, place="func" if sk_ref == "param" or g["place"] == "method" else g["place"])))
-    tk_ref = ("call", 0) if (g["tk"], g["pos"]) != ("call", 0) else ("mcall", 0)
-    out.append(("tk", dict(g, tk=tk_ref[0], pos=tk_ref[1], twist=None)))
+    for sk_ref in ("param", "call", "mcall"):
+        if sk_ref != g["sk"]:
+            out.append(("sk", dict(g, sk=sk_ref, place="func" if sk_ref == "param" or g["place"] == "method" else g["place"])))
+    for tk_ref in (("call", 0), ("mcall", 0), ("fwrite", 0)):
+        if tk_ref != (g["tk"], g["pos"]):
+            out.append(("tk", dict(g, tk=tk_ref[0], pos=tk_ref[1], twist=None)))
     return out
 
 
@@ -292,12 +294,24 @@ def generalise(g, atom_chain):
     cfg = norm_gadget(dict(g, chain=atom_chain))
     relevant = {}
     for dim in ("modes", "imp", "layout", "place", "sk", "tk"):
-        swaps = dict(reference_swaps(cfg))
-        if dim not in swaps or (dim == "layout" and relevant.get("imp")):
+        cands = [sw for d, sw in reference_swaps(cfg) if d == dim]
+        if not cands or (dim == "layout" and relevant.get("imp")):
             continue
-        r = yield norm_gadget(swaps[dim])
+        swap = cands[0]
+        if dim in ("sk", "tk") and cfg["chain"]:
+            # the reference kind must itself be healthy (its direct flow is reported), else nothing can be concluded
+            swap = None
+            for cand in cands:
+                ok = yield norm_gadget(dict(cand, chain=[], layout=[0]))
+                if ok is True:
+                    swap = cand
+                    break
+            if swap is None:
+                relevant[dim] = True
+                continue
+        r = yield norm_gadget(swap)
         if r is False:
-            cfg = norm_gadget(swaps[dim])       # still fails: this dimension does not matter
+            cfg = norm_gadget(swap)       # still fails: this dimension does not matter
             relevant[dim] = False
         else:
             relevant[dim] = True
